@@ -564,8 +564,14 @@ unsigned cmb_random_geometric(const double p)
 
     static CMB_THREAD_LOCAL double prev = 0.0;
     static CMB_THREAD_LOCAL double denom = 0.0;
+    if (p >= 1.0) {
+        /* Certain success at the first trial (and log(0) below otherwise) */
+        return 1u;
+    }
+
     if (p != prev) {
         denom = -log(1.0 - p);
+        prev = p;
     }
 
     unsigned x = (unsigned)ceil(cmb_random_std_exponential() / denom);
